@@ -159,6 +159,15 @@ Definition decode_block (bs : bytes) : res block :=
   | _ => Err E_FailedLoadingMetadata
   end.
 
+(* a block whose every field is in the range of its serialized width *)
+Definition wf_parent (p : option N) : Prop := match p with None => True | Some i => i < 2 ^ 32 end.
+Definition wf_leaf (l : leaf) : Prop :=
+  length (l_hash l) = HASH_BYTES /\ wf_parent (l_parent l) /\ l_key l < 2 ^ 64 /\ l_value l < 2 ^ 64.
+Definition wf_inode (n : inode) : Prop :=
+  length (i_hash n) = HASH_BYTES /\ wf_parent (i_parent n) /\ i_left n < 2 ^ 32 /\ i_right n < 2 ^ 32.
+Definition wf_node (n : node) : Prop := match n with NLeaf l => wf_leaf l | NInt i => wf_inode i end.
+Definition wf_block (b : block) : Prop := wf_node (b_node b).
+
 (* a blob as raw bytes <-> list of blocks *)
 Fixpoint chunk (fuel : nat) (n : nat) (bs : bytes) : list bytes :=
   match fuel with
